@@ -1,6 +1,10 @@
 """C10 - see DESIGN.md section 5/C10.  Bounded stand-in (bounded/C10.py) of the property's
-contract on the real code; labelled bounded, never counted as proved."""
+contract on the real code; labelled bounded, never counted as proved.  The
+normalisation helper `_normalise_split_results` is additionally under a verified contract
+(contracts/result_views.py over pyvc/lib_frame.py)."""
 from props._runner import run
 
 if __name__ == "__main__":
-    run("C10", "exploration", notes="C10: run-time contract on the real code over an enumerated small scope (bounded stand-in)")
+    run("C10", "exploration", files=["result_views.py"],
+        notes="C10: run-time contract on the real code over an enumerated small scope (bounded stand-in, deciding); "
+              "_normalise_split_results proved for all inputs (which segment meets which factors)")
